@@ -125,9 +125,9 @@ class seed_flock:
 
 # loops of the model kernel have constant trip counts (its table sizes); they get exactly that
 # bound whatever global unwind value a harness uses
-KQ_LOOPS = {r"^kq::(settle|settle_pass|munmap|copy_out)$": 10, r"^kq::exit_process$": 42,
-            r"^kq::(enqueue|recvmsg|recv|ep_notify|epoll_ctl|epoll_wait|ep_any_undelivered|ep_rescan_hangups)$": 6}
-KQ_LOOPS_BIGFD = {r"^kq::(settle|settle_pass)$": 142, r"^kq::(munmap|copy_out)$": 10, r"^kq::exit_process$": 232,
+KQ_LOOPS = {r"^kq::(alive_d).*$": 14, r"^kq::(open_fds|exit_process)$": 58, r"^kq::(has_open_fd|after_release)$": 10, r"^kq::(munmap|copy_out)$": 10, r"^kq::exit_process$": 58,
+            r"^kq::(enqueue|recvmsg|recv)$": 8, r"^kq::(ep_notify|epoll_ctl|epoll_wait|ep_any_undelivered|ep_rescan_hangups)$": 6}
+KQ_LOOPS_BIGFD = {r"^kq::(alive_d).*$": 142, r"^kq::(open_fds|exit_process)$": 232, r"^kq::has_open_fd$": 142, r"^kq::after_release$": 10, r"^kq::(munmap|copy_out)$": 10, r"^kq::exit_process$": 232,
                   r"^kq::(enqueue|recvmsg|recv)$": 72, r"^kq::(ep_notify|epoll_ctl|epoll_wait|ep_any_undelivered|ep_rescan_hangups)$": 6}
 KREC_LOOPS = {r"^krec::sendmsg$": 8}
 FS_ARRAY = int(os.environ.get("IPC_VERIF_FS_ARRAY", "320"))
